@@ -208,3 +208,9 @@ pub fn load_from_icalc<'a>(file_name: &str, language_id: &'a str) -> Result<Mode
         .map_err(|e| XlsxError::IO(format!("Failed to decode file: {e}")))?;
     Model::from_workbook(workbook, language_id).map_err(XlsxError::Workbook)
 }
+
+/// Verification hook (only with `--cfg ironcalc_verif`).
+#[cfg(ironcalc_verif)]
+pub(crate) fn verif_decode_xlsx_escapes(s: &str) -> String {
+    shared_strings::decode_xlsx_escapes(s)
+}
